@@ -391,22 +391,37 @@ def r3_record_layout(ctx, rule, scope='all'):
     for q in ((GIO + '_load_from_file', SGIO + '_load_from_file') if scope != 'omen' else ()):
         fn = ctx.fn(q)
         n += 1
+        mod_ = ctx.repo.modules[q.partition('::')[0]]
+
+        def is_tab_split(c):
+            return isinstance(c, ast.Call) and isinstance(c.func, ast.Attribute) and c.func.attr == 'split' and c.args \
+                and const(c.args[0]) == '\t'
         split = None
+        svs = set()
         for st in walk_stmts(fn.body):
-            if isinstance(st, ast.Assign) and isinstance(st.value, ast.Call) and isinstance(st.value.func, ast.Attribute) \
-                    and st.value.func.attr == 'split' and st.value.args and const(st.value.args[0]) == '\t':
+            if isinstance(st, ast.Assign) and is_tab_split(st.value):
                 split = st
-        if split is None:
+                svs.add(U(st.targets[0]))
+        inline = [c for c in calls_in(fn) if is_tab_split(c)]
+        if split is None and not inline:
             ctx.bad(rule, q, 'no split on TAB', 'records are TAB separated', None, fn)
             continue
-        sv = U(split.targets[0])
         uses = {}
         for nnode in walk_local(fn):
-            if isinstance(nnode, ast.Subscript) and U(nnode.value) == sv and isinstance(const(nnode.slice), int):
-                par = ctx.repo.modules[q.partition('::')[0]].parents.get(id(nnode))
-                uses.setdefault(const(nnode.slice), []).append(U(par)[:60])
-        facts = {'split': U(split), 'field_uses': uses}
-        f1_float = any('float(%s[1])' % sv in u for u in uses.get(1, []))
+            if isinstance(nnode, ast.Subscript) and isinstance(const(nnode.slice), int) and (U(nnode.value) in svs or is_tab_split(nnode.value)):
+                par = mod_.parents.get(id(nnode))
+                # a field bound to a name: follow the name one step (terminal = fields[0]; table[terminal] = ...)
+                ctxt = U(par).replace(U(nnode), 'FIELD%d' % const(nnode.slice))[:60]
+                if isinstance(par, ast.Assign) and par.value is nnode and isinstance(par.targets[0], ast.Name):
+                    nm = par.targets[0].id
+                    outs = [U(mod_.parents.get(id(x)))[:60] for x in walk_local(fn) if isinstance(x, ast.Name) and x.id == nm
+                            and isinstance(x.ctx, ast.Load)]
+                    ctxt = ' | '.join(outs) or ctxt
+                uses.setdefault(const(nnode.slice), []).append(ctxt)
+        sv = sorted(svs)[0] if svs else "<line>.split('\t')"
+        facts = {'split': U(split) if split is not None else U(inline[0]), 'field_uses': uses}
+        split = split if split is not None else inline[0]
+        f1_float = any('float(FIELD1)' in u or 'float(' in u for u in uses.get(1, []))
         f0_verbatim = all(not any(x in u for x in ('.strip(', '.lstrip(', '.rstrip(', '.lower(', '.upper(')) for u in uses.get(0, []))
         if f1_float and 0 in uses and f0_verbatim and set(uses) <= {0, 1}:
             ctx.ok(rule, q, 'value = field 0 verbatim, probability = float(field 1)', facts)
